@@ -270,6 +270,41 @@ def many_tracks_case(ctx, seed, ntracks):
     judge_merge(ctx, tracks, rng.random() < 0.5, {'kind': 'many-tracks', 'seed': seed, 'tracks': ntracks})
 
 
+def after_failed_registration_case(ctx, seed):
+    """An application's add_meta_spec() call fails (its spec class is broken in one way or another); merges of files that
+    have nothing to do with that event type go on as before."""
+    from mido.midifiles.meta import MetaSpec, add_meta_spec
+
+    class Unhashable(MetaSpec):
+        type_byte = 0x0B          # (an unused type byte below most of the built-in ones)
+        attributes = []
+        defaults = []
+        type = ['not', 'hashable']
+
+    class NoTypeByte(MetaSpec):
+        attributes = []
+        defaults = []
+
+    class RaisingInit(MetaSpec):
+        type_byte = 0x6C
+
+        def __init__(self):
+            raise RuntimeError('driver not ready')
+    failed = 0
+    for bad in (Unhashable, NoTypeByte, RaisingInit, None, 5):
+        try:
+            add_meta_spec(bad)
+        except Exception:
+            failed += 1
+    rng = random.Random(seed)
+    try:
+        tracks = rand_tracks(rng, False, allow_huge=False)
+    except Exception as exc:
+        ctx.fail('no exception', f'building-after-failed-registration:{type(exc).__name__}', {'kind': 'after-failed-registration', 'seed': seed}, repr(exc))
+        return
+    judge_merge(ctx, tracks, False, {'kind': 'after-failed-registration', 'seed': seed, 'registrations_failed': failed})
+
+
 def nested_merge_case(ctx, seed):
     """The tracks handed to merge_tracks are produced lazily and call merge_tracks themselves."""
     rng = random.Random(seed)
@@ -387,6 +422,12 @@ def run(ctx):
             big_merge_case(ctx, f'{ctx.seed}:{ctx.shard}:big{total}', total)
             ctx.nontrivial(('big', total))
             n += 1
+    if ctx.shard == 11 % ctx.nshards:
+        # (leaves half a registration behind on a tree that registers non-atomically: runs last in its shard)
+        for j in range(5):
+            after_failed_registration_case(ctx, f'{ctx.seed}:{ctx.shard}:afr{j}')
+            ctx.nontrivial(('afr', j))
+            n += 1
     for si, ntr in enumerate((64, 999, 1000, 1001, 2500) + ((20000,) if ctx.tier == 'thorough' else ())):
         if (si + 7) % ctx.nshards == ctx.shard:
             many_tracks_case(ctx, f'{ctx.seed}:{ctx.shard}:many{ntr}', ntr)
@@ -396,7 +437,9 @@ def run(ctx):
 
 
 def replay(ctx, case):
-    if case['kind'] == 'many-tracks':
+    if case['kind'] == 'after-failed-registration':
+        after_failed_registration_case(ctx, case['seed'])
+    elif case['kind'] == 'many-tracks':
         many_tracks_case(ctx, case['seed'], case['tracks'])
     elif case['kind'] == 'nested-merge':
         nested_merge_case(ctx, case['seed'])
